@@ -109,6 +109,15 @@ void h_run(Case &c) {
   x->obj_attr.obj_depth = sdepth; x->obj_attr.obj_index = sidx; x->obj_attr.diff.generic.type = (hwloc_topology_diff_obj_attr_type_t)stype;
   // an entry whose old value does not match the topology must fail too (and roll back)
   if (x->obj_attr.diff.generic.type == HWLOC_TOPOLOGY_DIFF_OBJ_ATTR_SIZE) { x->obj_attr.diff.uint64.oldvalue += 1; r = hwloc_topology_diff_apply(P, df, 0); CHECK(c, r == -N, "apply_failure_index", "wrong old value in entry %d: apply returned %d", N, r); CHECK(c, first_diff(fullA, dump_topology(P)).empty(), "rollback", "rollback inexact after a wrong old value"); x->obj_attr.diff.uint64.oldvalue -= 1; }
+  // an entry that is already applied (the topology holds its NEW value) must fail like any other mismatch, and the rollback must not touch it:
+  // (a) Q = A + entry N alone, then the whole diff: fails at N, Q unchanged; (b) the whole diff applied twice: the second apply fails at entry 1
+  { hwloc_topology_t Q; hwloc_topology_dup(&Q, A); hwloc_topology_diff_t nx = x->generic.next; x->generic.next = NULL; r = hwloc_topology_diff_apply(Q, x, 0); x->generic.next = nx; CHECK(c, r == 0, "apply", "entry %d alone does not apply to A: %d", N, r);
+    std::string pre = dump_topology(Q); r = hwloc_topology_diff_apply(Q, df, 0); CHECK(c, r == -N, "apply_failure_index", "entry %d is already applied, the whole diff returned %d instead of %d", N, r, -N);
+    CHECK(c, first_diff(pre, dump_topology(Q)).empty(), "rollback", "rollback inexact when entry %d of %d was already applied: %s", N, len, first_diff(pre, dump_topology(Q)).c_str());
+    hwloc_topology_destroy(Q);
+    hwloc_topology_dup(&Q, A); r = hwloc_topology_diff_apply(Q, df, 0); CHECK(c, r == 0, "apply", "apply returned %d", r); pre = dump_topology(Q); r = hwloc_topology_diff_apply(Q, df, 0); CHECK(c, r == -1, "apply_failure_index", "applying the diff a second time returned %d instead of -1", r);
+    CHECK(c, first_diff(pre, dump_topology(Q)).empty(), "rollback", "a second (failing) apply of the same diff changed the topology: %s", first_diff(pre, dump_topology(Q)).c_str());
+    hwloc_topology_destroy(Q); c.cls("rollback:already-applied-entry"); }
   c.descf("\n -> %d entries, rollback at N=%d (how=%d)", len, N, how);
   if (repobjs.size() >= 2 || N >= 2) c.nontrivial();
   hwloc_topology_diff_destroy(df); hwloc_topology_destroy(P); hwloc_topology_destroy(A); hwloc_topology_destroy(B);
